@@ -99,6 +99,7 @@ let run (input : string) : string =
   | ["S"; h; p] -> run_s h p
   | ["F"; h; os2; p] -> run_f h os2 p
   | ["M"; b; c] -> run_m b c
+  | ["B"; _; _; _] -> "n/a"      (* encoding_rs' Big5 index is not modelled: the sweep is judged on its own *)
   | _ -> failwith "c06 input"
 
 (* ---------------------------------------------------------------------------------------------- *)
@@ -128,6 +129,7 @@ let tag (input : string) (out : string) : string =
     (match field "enc" out with
      | Some e -> "F/" ^ e
      | None -> "F/" ^ (match List.rev (split_on ';' out) with x :: _ -> x | [] -> "?"))
+  | 'B' -> "B/big5-sweep"
   | _ -> "M"
 
 (* glyph a Font would report for a lookup result: errors and None are the missing glyph *)
@@ -328,6 +330,12 @@ let judge_m (input : string) (impl : string) (model : string) : verdict =
 
 let judge (input : string) (impl : string) (model : string) : verdict =
   if starts_with "MODEL-EXN" model then Mismatch model
+  else if input.[0] = 'B' then
+    (* Big5: unicode_to_big5 and big5_to_unicode are mutual inverses wherever both are defined *)
+    (match field "bad" impl, field "mapped" impl with
+     | Some "", Some m -> if m = "0" && input = "B|c|0|1114112" then Violation ("big5", "no character maps to Big5 at all") else Agree
+     | Some b, _ -> Violation ("big5", "Big5 conversions are not mutual inverses (value>there>back, hex): " ^ b)
+     | _ -> if starts_with "p" impl then Violation ("panic", "a Big5 conversion panicked") else Mismatch ("unreadable Big5 report: " ^ impl))
   else if impl = model then
     (* identical to the model; M cases still get the round-trip check on the output itself *)
     (if input.[0] = 'M' then judge_m input impl model else Agree)
